@@ -31,8 +31,11 @@ import (
 )
 
 type c09kOp struct {
-	Kind string `json:"kind"` // create | delete | move | catchup | exist | list
+	Kind string `json:"kind"` // create | delete | move | catchup | exist | list | label
 	Pod  int    `json:"pod,omitempty"`
+	// Ignored (create, label): the pod carries the ignore-by-terway label (such pods are left
+	// out of the node's pod list; they exist all the same)
+	Ignored bool `json:"ignored,omitempty"`
 }
 
 type c09kScenario struct {
@@ -46,16 +49,18 @@ func c09kGen(t *rapid.T) c09kScenario {
 	n := rapid.IntRange(2, vt.Scale(14, 30)).Draw(t, "nops")
 	for i := 0; i < n; i++ {
 		s.Ops = append(s.Ops, c09kOp{
-			Kind: rapid.SampledFrom([]string{"create", "create", "delete", "delete", "move", "catchup", "exist", "exist", "exist", "list"}).Draw(t, "kind"),
-			Pod:  rapid.IntRange(0, c09kPods-1).Draw(t, "pod"),
+			Kind:    rapid.SampledFrom([]string{"create", "create", "delete", "delete", "move", "catchup", "exist", "exist", "exist", "list", "label"}).Draw(t, "kind"),
+			Pod:     rapid.IntRange(0, c09kPods-1).Draw(t, "pod"),
+			Ignored: rapid.IntRange(0, 3).Draw(t, "ignored") == 0,
 		})
 	}
 	return s
 }
 
 type c09kPod struct {
-	node string
-	uid  int
+	node    string
+	uid     int
+	ignored bool
 }
 
 func c09kRun(c *vt.Ctx, s c09kScenario) {
@@ -63,10 +68,14 @@ func c09kRun(c *vt.Ctx, s c09kScenario) {
 	truth := map[string]*c09kPod{}
 	cache := map[string]*c09kPod{}
 	mkPod := func(name string, p *c09kPod) *corev1.Pod {
-		return &corev1.Pod{
+		pod := &corev1.Pod{
 			ObjectMeta: metav1.ObjectMeta{Namespace: "ns", Name: name, UID: k8stypes.UID("uid-" + name + fmt.Sprint(p.uid))},
 			Spec:       corev1.PodSpec{NodeName: p.node},
 		}
+		if p.ignored {
+			pod.Labels = map[string]string{types.IgnoreByTerway: "true"}
+		}
+		return pod
 	}
 	stale := func(opts *metav1.GetOptions) bool { return opts != nil && opts.ResourceVersion == "0" }
 	cl := fake.NewClientBuilder().WithScheme(types.Scheme).WithInterceptorFuncs(interceptor.Funcs{
@@ -115,7 +124,7 @@ func c09kRun(c *vt.Ctx, s c09kScenario) {
 	}).Build()
 	k := &k8s{client: cl, nodeName: node, mode: daemon.ModeENIMultiIP}
 
-	laggingAbsent, laggingPresent := false, false
+	laggingAbsent, laggingPresent, askedIgnored := false, false, false
 	for i, o := range s.Ops {
 		name := fmt.Sprintf("p%d", o.Pod)
 		switch o.Kind {
@@ -124,12 +133,17 @@ func c09kRun(c *vt.Ctx, s c09kScenario) {
 			if old := truth[name]; old != nil {
 				uid = old.uid + 1 // recreated under the same name
 			}
-			truth[name] = &c09kPod{node: node, uid: uid}
+			truth[name] = &c09kPod{node: node, uid: uid, ignored: o.Ignored}
+		case "label":
+			// the label is put on / taken off a pod that already runs
+			if p := truth[name]; p != nil {
+				truth[name] = &c09kPod{node: p.node, uid: p.uid, ignored: o.Ignored}
+			}
 		case "delete":
 			delete(truth, name)
 		case "move":
 			if p := truth[name]; p != nil {
-				truth[name] = &c09kPod{node: "node-2", uid: p.uid + 1}
+				truth[name] = &c09kPod{node: "node-2", uid: p.uid + 1, ignored: p.ignored}
 			}
 		case "catchup":
 			cache = map[string]*c09kPod{}
@@ -147,12 +161,19 @@ func c09kRun(c *vt.Ctx, s c09kScenario) {
 					laggingPresent = true
 				}
 			}
+			if truth[name] != nil && truth[name].ignored && want {
+				askedIgnored = true
+			}
 			got, err := k.PodExist("ns", name)
 			if err != nil {
 				c.Fatalf("step %d: PodExist(ns/%s) failed: %v", i, name, err)
 			}
 			if got != want {
-				c.Fatalf("step %d: PodExist(ns/%s) = %v, but the API server's authoritative state says %v (watch cache says %v): the GC's final check was answered from the lagging cache", i, name, got, want, cached)
+				why := "the GC's final check does not reflect what the API server holds"
+				if cached == got {
+					why = "the GC's final check was answered from the lagging cache"
+				}
+				c.Fatalf("step %d: PodExist(ns/%s) = %v, but the API server's authoritative state says %v (watch cache says %v, ignore label %v): %s", i, name, got, want, cached, truth[name] != nil && truth[name].ignored, why)
 			}
 		case "list":
 			if _, err := k.GetLocalPods(); err != nil {
@@ -162,6 +183,10 @@ func c09kRun(c *vt.Ctx, s c09kScenario) {
 	}
 	if laggingAbsent {
 		c.Label("exists-but-cache-says-absent")
+		c.NonTrivial()
+	}
+	if askedIgnored {
+		c.Label("exist-query-for-a-pod-with-the-ignore-label")
 		c.NonTrivial()
 	}
 	if laggingPresent {
